@@ -27,7 +27,7 @@ MANIFEST = {
     'note': 'The overspeed test inside calc_speeds is an assert! (process abort), which the statement forbids; its reachability is exactly the undecided core.',
 }
 EXPLANATION = 'Terms and guards of BrakingPoints::recalc / calc_speeds, SpeedLimitTrainSim::solve_required_pwr / extend_path / walk_internal.'
-RULES = ['C03-1.anchor', 'C03-2.rebuild', 'C03-3.controller', 'C03-4.errors', 'C03-5.window', 'C03-6.profile', 'C03-7.resistance']
+RULES = ['C03-1.anchor', 'C03-2.rebuild', 'C03-3.controller', 'C03-4.errors', 'C03-5.window', 'C03-6.profile', 'C03-7.resistance', 'C03-8.position']
 ASSUMPTIONS = ['dt > 0, compound mass > 0']
 
 A = [(r'(^|\.)dt$', 'pos'), (r'mass_static$', 'pos'), (r'mass_rot$', 'nonneg')]
@@ -62,6 +62,10 @@ def run(ctx):
     # cached index search and the force formulas (C07) are necessary here too
     from . import C07
     C07.run(RuleProxy(ctx, {k: 'C03-7.resistance' for k in C07.RULES if k not in ('C07-3.report', 'C07-10.braking')}))
+    # limit and braking curve are looked up at the train's position: its bookkeeping (time, front offset integration, rear offset:
+    # clauses of C12, speed-limited simulation) is necessary here too
+    from . import C12
+    C12.run(RuleProxy(ctx, {k: 'C03-8.position' for k in ('C12-1.time', 'C12-2.offset', 'C12-3.rear', 'C12-6.init')}, key_filter=lambda k: not k.startswith('SetSpeedTrainSim')))
     anchor(ctx)
     rebuild(ctx)
     controller(ctx)
